@@ -3,7 +3,7 @@ from vlib.gentie import gentie_step
 
 CHECK = Check(
     "C19",
-    props_modules=["OW.Props.C19"],
+    props_modules=["OW.Props.C19", "OW.Props.C19Model"],
     families=[Family("DATE")],
     # tie A: dates.go (dateGenerator, _dayOfYear, daysInMonth, leapYear, DAYS_IN_MONTH) is REGENERATED as Lean on every run
     # (harness/cmd/owtranslate) and proved equal to OW/Util/Dates.lean (OW/Props/GenTieDates.lean: gen_eq_DateGenerator)
@@ -15,14 +15,22 @@ CHECK = Check(
         "Go int modelled as Int (no overflow); float64<->int conversions of day/month/year exact below 2^53",
         "oracle for the failing-input search: Go's time package as an independent Gregorian calendar",
     ],
-    assumptions=["start date valid (1<=month<=12, 1<=day<=length of month); any integer year; any run length"],
+    assumptions=[
+        "start date valid (1<=month<=12, 1<=day<=length of month); any integer year; any run length",
+        "model level (model_spec, model_spec_real: the four float output series of DateGenerator.model.run are rows.map ofInt of the "
+        "rows of generator_spec): the parameters day, month, year are INTEGER-VALUED. The kernel applies int() to them: a non-integer "
+        "parameter is truncated toward zero first (28.9 -> 28; modelled, Num.toInt), int(NaN) and int(+-Inf) are implementation-defined "
+        "in Go and outside every statement; model_spec needs int(float(n)) = n, proved at R (toInt_ofInt_real) and true of float64 for "
+        "|n| < 2^53",
+    ],
 )
 
 META = dict(
     category="proof",
     text="Lean 4 theorems over a hand-written model of dates.go (generator_spec: the k-th emitted row is the unique "
          "valid Gregorian date with ordinal start+k, for every valid start, integer year and run length; leap rule, "
-         "month lengths, day-of-year; ordinal injective on valid dates), kernel-checked; the model is tied to the "
+         "month lengths, day-of-year; ordinal injective on valid dates; model_spec / model_spec_real: for integer-valued parameters the four "
+         "float output series of the catalogue model are those rows converted back), kernel-checked; the model is tied to the "
          "code on every run by exact comparison of the real DateGenerator (wrapper+kernel) with the compiled model.",
     design_ref="DESIGN.md §6 C19",
     note="Trusted: Lean kernel + propext/Classical.choice/Quot.sound; the correspondence generator (4k starts quick, "
